@@ -1660,26 +1660,34 @@ class PyCdlib:
 
             num_seen_efi = 0
             for enc in enc_to_update:
-                if id(enc.entry.inode) in linked_inodes:
-                    continue
-
-                enc.entry.set_data_location(current_extent,
-                                            current_extent - part_start)
+                # An entry whose boot file was already placed for an earlier
+                # entry keeps that location, but still has to be announced to
+                # the hybrid structures.
+                already_placed = id(enc.entry.inode) in linked_inodes
+                if already_placed:
+                    entry_extent = enc.entry.inode.extent_location()
+                else:
+                    entry_extent = current_extent
+                    enc.entry.set_data_location(current_extent,
+                                                current_extent - part_start)
 
                 if self.isohybrid_mbr is not None:
                     if enc.platform_id == 0xef:
                         if num_seen_efi == 0:
-                            self.isohybrid_mbr.update_efi(current_extent,
+                            self.isohybrid_mbr.update_efi(entry_extent,
                                                           enc.entry.sector_count,
                                                           self.pvd.space_size * self.logical_block_size)
                         elif num_seen_efi == 1:
-                            self.isohybrid_mbr.update_mac(current_extent,
+                            self.isohybrid_mbr.update_mac(entry_extent,
                                                           enc.entry.sector_count)
                         else:
                             raise pycdlibexception.PyCdlibInternalError('Only expected two EFI sections')
                         num_seen_efi += 1
                     elif enc.platform_id == 0:
-                        self.isohybrid_mbr.update_rba(current_extent)
+                        self.isohybrid_mbr.update_rba(entry_extent)
+
+                if already_placed:
+                    continue
 
                 current_extent = self._set_inode(enc.entry.inode, current_extent,
                                                  part_start)
